@@ -89,7 +89,7 @@ package decision
 //@   modifies all
 //@   loop 2 invariant[message_stays_well_formed] wfMaps(msg)
 //@   loop 3 invariant[message_stays_well_formed] wfMaps(msg)
-//@   site[have_only_for_a_present_block_wanted_as_have] invoke:AddHave : td.HaveBlock && !td.IsWantBlock
-//@   site[dont_have_for_a_block_absent_at_intake] invoke:AddDontHave#0 : !td.HaveBlock
-//@   site[dont_have_for_a_removed_block_only_when_asked] invoke:AddDontHave#1 : blks[arg0] == nil && has(blockTasks, arg0) && blockTasks[arg0].SendDontHave
-//@   site[block_only_when_the_store_returned_it] invoke:AddBlock : arg0 != nil
+//@   site[have_only_for_a_present_block_wanted_as_have] call:AddHave : td.HaveBlock && !td.IsWantBlock
+//@   site[dont_have_for_a_block_absent_at_intake] call:AddDontHave#0 : !td.HaveBlock
+//@   site[dont_have_for_a_removed_block_only_when_asked] call:AddDontHave#1 : has(blockTasks, arg1) && blockTasks[arg1].SendDontHave
+//@   site[block_only_when_the_store_returned_it] call:AddBlock : arg1 != nil
